@@ -125,6 +125,8 @@ def run_app(sc):
                 s.glue = bytes.fromhex(spec["glue"])
             if spec.get("send_stalls_from") is not None:
                 s.send_stalls_from = spec["send_stalls_from"]
+            if spec.get("send_stalls_until") is not None:
+                s.send_stalls_until = tuple(spec["send_stalls_until"])
             if spec.get("short_body"):
                 # a rejection whose declared body is longer than what arrives before the peer closes
                 s.reject_tail = b"Content-Length: 50\r\n\r\nabc"
